@@ -97,11 +97,33 @@ Proof. apply unlinked_refutes. vm_compute. reflexivity. Qed.
 
 (** Each repair is needed for its witness and sufficient for it. *)
 Theorem C21_sites_separate :
-  unlinked cw (run_all cw {| v_copy_sched := true; v_derive_cached := false |} witness_dup empty_state) = false
-  /\ unlinked cw (run_all cw {| v_copy_sched := true; v_derive_cached := false |} witness_cached empty_state) = true
-  /\ unlinked cw (run_all cw {| v_copy_sched := false; v_derive_cached := true |} witness_dup empty_state) = true
-  /\ unlinked cw (run_all cw {| v_copy_sched := false; v_derive_cached := true |} witness_cached empty_state) = false.
+  unlinked cw (run_all cw {| v_copy_sched := true; v_derive_cached := false; v_forget := false |} witness_dup empty_state) = false
+  /\ unlinked cw (run_all cw {| v_copy_sched := true; v_derive_cached := false; v_forget := false |} witness_cached empty_state) = true
+  /\ unlinked cw (run_all cw {| v_copy_sched := false; v_derive_cached := true; v_forget := false |} witness_dup empty_state) = true
+  /\ unlinked cw (run_all cw {| v_copy_sched := false; v_derive_cached := true; v_forget := false |} witness_cached empty_state) = false.
 Proof. vm_compute. repeat split. Qed.
+
+(* ------------------------------------------------------------------ pickling round trip *)
+(** A parent task that is a cache hit hands the scheduler its recorded result expression,
+    deserialised: new objects, [call_hash = None], [_upstreams] as [__setstate__] leaves them.
+    With the shape that rebuilds [_upstreams = [args, kwargs]] ([model_setstate]) evaluating the
+    deserialised tree is evaluating the tree: same rows, same upstream sets, for every variant. *)
+Theorem C21_roundtrip_invariant : forall W V e st, v_forget V = false ->
+  run_prog W (deser_variant model_setstate V) e st = run_prog W V e st.
+Proof. intros W [a b c] e st H. simpl in H. subst c. reflexivity. Qed.
+
+Theorem C21_upstream_complete_roundtrip : forall W ps,
+  rows_complete W (run_all W (deser_variant model_setstate fixed) ps empty_state).
+Proof. exact complete_fixed. Qed.
+
+(** A [__setstate__] that forgets the rebuild: a deserialised cond/seq/catch passed into a task is
+    recorded without any upstream, even with both repairs in place.
+    [sumc(cond(pick(1), inc(1), 0), tag=10)] read back from the cache. *)
+Definition witness_deser : list expr := [call1 4 dup_cond 10].
+
+Theorem C21_roundtrip_refuted :
+  ~ rows_complete cw (run_all cw (deser_variant forgetful_setstate fixed) witness_deser empty_state).
+Proof. apply unlinked_refutes. vm_compute. reflexivity. Qed.
 
 (* ------------------------------------------------------------------ non-vacuity *)
 (** The histories of the witnesses record calls, and under the repaired variant the second
@@ -127,4 +149,7 @@ Print Assumptions C21_values_fixed.
 Print Assumptions C21_upstream_refuted_dup.
 Print Assumptions C21_upstream_refuted_cached.
 Print Assumptions C21_sites_separate.
+Print Assumptions C21_roundtrip_invariant.
+Print Assumptions C21_upstream_complete_roundtrip.
+Print Assumptions C21_roundtrip_refuted.
 Print Assumptions C21_nonvacuous.
